@@ -23,8 +23,12 @@ func (w WouldBlock) Error() string {
 }
 
 var (
-	mu   sync.Mutex
-	held = map[string]int{}
+	mu sync.Mutex
+	// held counts the locks per FILE (device:inode), not per path: the same file may be opened under several spellings
+	// of its path, through symbolic links or hard links. byPath remembers under which identity a path was locked (the
+	// file may be renamed or removed before it is unlocked).
+	held   = map[string]int{}
+	byPath = map[string][]string{}
 	// PanicOnWait: in sequential harnesses a lock wait is a definite hang; raise WouldBlock instead of sleeping.
 	PanicOnWait bool
 )
@@ -40,11 +44,21 @@ func Sequential(on bool) {
 var seq bool
 
 func init() {
-	bbolt.VerifFlocked = func(path string) { mu.Lock(); held[path]++; mu.Unlock() }
+	bbolt.VerifFlocked = func(path string) {
+		id := fileID(path)
+		mu.Lock()
+		held[id]++
+		byPath[path] = append(byPath[path], id)
+		mu.Unlock()
+	}
 	bbolt.VerifFunlocked = func(path string) {
 		mu.Lock()
-		if held[path] > 0 {
-			held[path]--
+		if ids := byPath[path]; len(ids) > 0 {
+			id := ids[len(ids)-1]
+			byPath[path] = ids[:len(ids)-1]
+			if held[id] > 0 {
+				held[id]--
+			}
 		}
 		mu.Unlock()
 	}
@@ -60,7 +74,7 @@ func init() {
 						panic(WouldBlock{path})
 					}
 				}()
-				vsync.SeqAcquire(func() bool { mu.Lock(); defer mu.Unlock(); return held[path] == 0 }, "flock")
+				vsync.SeqAcquire(func() bool { mu.Lock(); defer mu.Unlock(); return held[fileID(path)] == 0 }, "flock")
 			}()
 			return
 		}
@@ -72,8 +86,20 @@ func init() {
 	vsched.FlockHeld = func(path string) bool {
 		mu.Lock()
 		defer mu.Unlock()
-		return held[path] > 0
+		return held[fileID(path)] > 0
 	}
+}
+
+// fileID names the file a path leads to at the moment.
+func fileID(path string) string {
+	fi, err := os.Stat(path)
+	if err != nil {
+		return "path:" + path
+	}
+	if st, ok := fi.Sys().(*syscall.Stat_t); ok {
+		return fmt.Sprintf("%d:%d", st.Dev, st.Ino)
+	}
+	return "path:" + path
 }
 
 // Free reports whether an exclusive lock on path can be taken right now (and releases it again).
